@@ -343,6 +343,8 @@ pub fn sites(tier: Tier) -> Vec<Site> {
                 }
             }));
     }
+    // the time fields mean the same when the packet's bytes arrive a few at a time (the packets' BinRead is public)
+    sites.push(super::c01::packet_short_io_site("C15"));
     sites
 }
 
